@@ -9,12 +9,20 @@ LEVELS = {
     'C06': 'proof',
     'C08': 'proof',
     'C07': 'other',
+    'C13': 'proof',
 }
 EXPLAIN = {
     'C07': 'Mixed: deductive (all real values at bounded sizes) for aligned_source/alignment_error/rejection on every alignment class, translation and affine recovery + optimality certificates, 2-D rotation orthogonality / built-from-svd / never-a-reflection, PWA vertex, per-triangle affine and edge-continuity clauses; bounded run-time contracts (seeded, never counted as proved) for 3-D rotations, similarity and uniform-scale recovery/size/optimality against an independent Kabsch reference. coverage.obligations/discharged count the deductive part, coverage.bounded_cases the stand-ins.',
 }
 NOT_CLAIMED = {}
 CLAIMS = {
+    'C13': dict(
+        engine='symnp (E2)',
+        design_ref='DESIGN.md §6 C13',
+        technique='contract-based deductive verification: crop/patch contracts on the real code with symbolic pixel leaves and symbolic real crop bounds (path forking over the boundary cases, integer concretisation of the result shape); the sampler through its dependency contract; dtype by a bounded run-time contract',
+        text='Crop: for all real bounds (each axis over inside / partially / wholly outside on each side, and all overflow combinations across axes), all three image classes, 2-D and 3-D: exact source block (same leaves), landmarks shifted by the minimum, returned transform, ValueError / ImageBoundaryError exactly as specified, receiver untouched. Patches: for all pixel values, enumerated geometry (1-5 channels, 6 patch shapes, 49 centres in and beyond the image, 4 offset sets, fractional centres away from ties): shape, content, slicing==sampling path, write-back.',
+        note='Image sizes/geometry enumerated (values universal); scipy map_coordinates via the pointwise sampler contract (exact at grid points, cval outside); dtype preservation only by the bounded persona contract.',
+    ),
     'C08': dict(
         engine='symnp (E2)',
         design_ref='DESIGN.md §6 C08',
